@@ -79,7 +79,9 @@ WellFormed(e) ==
 AllChunked(e) == \A i \in 1..Len(e.cfgs) : e.cfgs[i][1] = "chunked"
 
 \* a non-zero seek that a later diff entry depends on
-SeekMatters(ctrl) == \E i, j \in 1..Len(ctrl) : i < j /\ ctrl[i][3] # 0 /\ ctrl[j][1] > 0
+RECURSIVE FirstSeek(_, _)
+FirstSeek(ctrl, k) == IF k > Len(ctrl) THEN 0 ELSE IF ctrl[k][3] # 0 THEN k ELSE FirstSeek(ctrl, k + 1)
+SeekMatters(ctrl) == LET f == FirstSeek(ctrl, 1) IN f > 0 /\ \E j \in (f + 1)..Len(ctrl) : ctrl[j][1] > 0
 UsesDiff(ctrl)    == \E i \in 1..Len(ctrl) : ctrl[i][1] > 0
 
 \* informational: the code-shaped model of the builder writes the same blocks
